@@ -433,16 +433,7 @@ func runC05(c *Ctx) {
 		}
 	}
 	if ul := p.Func("waddrmgr", "Manager", "Unlock"); ul != nil {
-		q := &PathQuery{Fn: ul, Barrier: isCallNamed("lock")}
-		q.EdgeBarrier = func(from *ssa.BasicBlock, si int) bool {
-			f := edgeFactOf(from, si)
-			return f != nil && f.Kind == "true" && isResultOfCall(f.V, "WatchOnly", -1)
-		}
-		q.Target = func(ins ssa.Instruction, via *ssa.BasicBlock) bool {
-			r, ok := ins.(*ssa.Return)
-			return ok && p.classifyReturn(r, via) != retSuccess
-		}
-		hits := q.From(nil)
+		hits := failureExitsWithoutLock(p, ul, 0, map[*ssa.Function]int{})
 		detail := ""
 		if len(hits) > 0 {
 			detail = "Unlock has a failure exit at " + p.Pos(hits[0].Ins.Pos()) + " that does not call lock(): keys decrypted so far stay in memory while the manager reports locked"
@@ -453,8 +444,14 @@ func runC05(c *Ctx) {
 	}
 	checkPassphraseChange(c, "C05-R3")
 	checkSaltedHash(c, "C05-R3")
+	checkChangeVerifiesOldPassphrase(c, "C05-R3")
+	// "any other passphrase fails": the key is stretched from exactly the bytes given, by creation and verification alike
+	c.Borrow(runC17, "C17-R3", "C05-R3", func(k string) bool {
+		return strings.HasPrefix(k, "kdf-gets-exact-passphrase") || strings.HasPrefix(k, "deriveKey-caller-passes-own-passphrase")
+	})
 	checkAccountWithoutPrivateKey(c, "C05-R3")
 	checkPendingDerivationsHaveAccounts(c, "C05-R3")
+	checkPendingQueueOnlyDrainedByUnlock(c, "C05-R3")
 }
 
 // inferHolders: struct fields of waddrmgr types that receive decrypted or private-key material.
@@ -699,4 +696,75 @@ func checkLockGating(c *Ctx, rule string) {
 	}
 	c.Floor(rule, "exported entry points analysed", nEntry, 100)
 
+}
+
+// failureExitsWithoutLock: failure returns of fn reachable without passing lock(). A step of the unlock extracted into a
+// same-package helper that itself re-locks on each of its failure exits counts as having re-locked when the caller
+// returns on that helper's error (`if err := m.unlockScope(...); err != nil { return err }`, `return m.check(...)`).
+func failureExitsWithoutLock(p *Program, fn *ssa.Function, depth int, memo map[*ssa.Function]int) []pathHit {
+	relocks := func(v ssa.Value) bool {
+		v = stripConv(v)
+		if ex, ok := v.(*ssa.Extract); ok {
+			v = ex.Tuple
+		}
+		call, ok := v.(*ssa.Call)
+		if !ok {
+			return false
+		}
+		h := call.Call.StaticCallee()
+		if h == nil || len(h.Blocks) == 0 || h.Parent() != nil || fnPkgPath(h) != fnPkgPath(fn) || h.Object() == nil || h.Object().Exported() || depth > 3 {
+			return false
+		}
+		if errResultIndex(h.Signature) < 0 {
+			return false
+		}
+		switch memo[h] {
+		case 1:
+			return false
+		case 2:
+			return true
+		case 3:
+			return false
+		}
+		memo[h] = 1
+		ok2 := len(failureExitsWithoutLock(p, h, depth+1, memo)) == 0
+		if ok2 {
+			memo[h] = 2
+		} else {
+			memo[h] = 3
+		}
+		return ok2
+	}
+	q := &PathQuery{Fn: fn, Barrier: isCallNamed("lock")}
+	q.EdgeBarrier = func(from *ssa.BasicBlock, si int) bool {
+		f := edgeFactOf(from, si)
+		if f == nil {
+			return false
+		}
+		if f.Kind == "true" && isResultOfCall(f.V, "WatchOnly", -1) {
+			return true
+		}
+		if f.Kind == "nonnil" && isErrorType(f.V.Type()) {
+			v := f.V
+			if u, ok := v.(*ssa.UnOp); ok && u.Op == token.MUL {
+				if dv := dominatingStoreVal(u); dv != nil {
+					v = dv
+				}
+			}
+			return relocks(v)
+		}
+		return false
+	}
+	ei := errResultIndex(fn.Signature)
+	q.Target = func(ins ssa.Instruction, via *ssa.BasicBlock) bool {
+		r, ok := ins.(*ssa.Return)
+		if !ok || p.classifyReturn(r, via) == retSuccess {
+			return false
+		}
+		if ei >= 0 && ei < len(r.Results) && relocks(effectiveResult(r, ei)) {
+			return false
+		}
+		return true
+	}
+	return q.From(nil)
 }
